@@ -42,7 +42,8 @@ def case_strategy(draw):
     else:
         ks = sorted(set(int(v) for v in rng.integers(0, n, 3)))
     disp = rng.uniform(-0.5, 0.5, (len(ks), 3))
-    base.update({"new": new.tolist(), "ks": ks, "disp": disp.tolist()})
+    base.update({"new": new.tolist(), "ks": ks, "disp": disp.tolist(),
+                 "how": draw(st.sampled_from(["fresh", "fresh", "inplace"])), "prior_seed": draw(st.integers(0, 2 ** 31))})
     return base
 
 
@@ -57,7 +58,13 @@ def check(case):
     M = xc.make_map(ref, tgt, s)
     anchors, assign = xc.oracle_assignment(case)
     chosen = xc.check_equivalences(M, assign)
-    conf = build_molecule(case["ref"], coords=new)
+    prior = xc.prior_call(M, case, case.get("prior_seed", 0))
+    if case.get("how") == "inplace":
+        # the new conformation is given to the very molecule object the map was built from
+        ref.atoms_positions = new.copy()
+        conf = ref
+    else:
+        conf = build_molecule(case["ref"], coords=new)
     out = positions(lib("map-apply", M, conf))
     if not np.all(np.isfinite(out)):
         raise PropertyViolation("finite", "non-finite mapped coordinates")
@@ -102,7 +109,8 @@ def check(case):
     nused = len(set(chosen))
     return {"nontrivial": nused >= 2 and n_outside > 0,
             "classes": ["anchors-used:%s" % ("1" if nused == 1 else "2+"),
-                        "s=1" if s == 1.0 else "s!=1", "graph:" + case["ref"]["graph"]]}
+                        "s=1" if s == 1.0 else "s!=1", "graph:" + case["ref"]["graph"],
+                        "how:" + case.get("how", "fresh"), "after-other-call" if prior else "first-call"]}
 
 
 SUBCHECKS = [
